@@ -37,7 +37,7 @@ TStep == /\ Log[l].a = "Deliver"
 TTouch == /\ Log[l].a = "Touch"
           /\ held' = NormH(Log[l].post)
           /\ UNCHANGED delivered
-          /\ last' = <<Msg(Log[l].item, 0, 0)>>
+          /\ last' = <<Msg(Log[l].item, -1, 0)>>
           /\ bad' = IF held' = held THEN bad ELSE Append(bad, <<l, {"touch"}>>)
 
 TNext == l <= Len(Log) /\ l' = l + 1 /\ (TReset \/ TStep \/ TTouch)
